@@ -89,4 +89,13 @@
 #define MBUFF_POST_ZEROBLOCK(o) (0 <= (o)->len && (o)->len <= (o)->size && (o)->size <= VCAP && \
                                  ((o)->size == 0 || MBUFF_BLOCK_OK((o)->buff, (o)->size)))
 
+/* ---- witness scalars for the native replay (units/C07/native/mbuff.c) ------------------------
+ * The objects of a contract unit are allocated by the contract (is_fresh), so the harness cannot copy their
+ * fields.  The w_* globals are arbitrary (DFCC havocs globals); an extra requires clause TIES them to the
+ * pre-state (w_len == self->len ...).  This restricts nothing: for every pre-state there is exactly one value
+ * of the ghosts.  The driver reads w_* from the counterexample and hands them to the native template. */
+long w_len, w_size, w_olen, w_osize, w_idx, w_cnt, w_n, w_c;
+#define MB_WIT_SELF(o)   ((o) == NULL || (w_len == (o)->len && w_size == (o)->size))
+#define MB_WIT_OTHER(o)  ((o) == NULL || (w_olen == (o)->len && w_osize == (o)->size))
+
 #endif
